@@ -1,6 +1,7 @@
 package main
 
 import (
+	"fmt"
 	"go/token"
 	"go/types"
 	"math/big"
@@ -209,9 +210,38 @@ func (x *Exec) bitand(st *State, a, b string, bits int, signed bool) string {
 
 func (x *Exec) bitopUninterp(st *State, op token.Token, a, b string, bits int, signed bool) string {
 	name := map[token.Token]string{token.AND: "bitand", token.OR: "bitor", token.XOR: "bitxor", token.AND_NOT: "bitandnot"}[op]
-	x.d.fun(name, []string{sInt, sInt}, sInt)
-	x.note("bitwise %s on wide integers is an uninterpreted function (range facts only)", name)
-	r := "(" + name + " " + a + " " + b + ")"
+	if av, ok := isIntLit(a); ok {
+		if bv, ok := isIntLit(b); ok && av.Sign() >= 0 && bv.Sign() >= 0 {
+			var z big.Int
+			switch op {
+			case token.AND:
+				z.And(av, bv)
+			case token.OR:
+				z.Or(av, bv)
+			case token.XOR:
+				z.Xor(av, bv)
+			case token.AND_NOT:
+				z.AndNot(av, bv)
+			}
+			return intLit(&z)
+		}
+	}
+	// exact: through fixed-width bit-vectors
+	bvop := map[token.Token]string{token.AND: "bvand", token.OR: "bvor", token.XOR: "bvxor"}[op]
+	ba := fmt.Sprintf("((_ int2bv %d) %s)", bits, a)
+	bb := fmt.Sprintf("((_ int2bv %d) %s)", bits, b)
+	var t string
+	if op == token.AND_NOT {
+		t = "(bvand " + ba + " (bvnot " + bb + "))"
+	} else {
+		t = "(" + bvop + " " + ba + " " + bb + ")"
+	}
+	r := x.d.fresh(name, sInt)
+	nat := "(bv2nat " + t + ")"
+	if signed {
+		nat = wrapInt(nat, bits, true)
+	}
+	st.assume(mkEq(r, nat))
 	st.assume(inRange(r, bits, signed))
 	if op == token.AND && !signed {
 		st.assume(mkAnd(mkCmp("<=", r, a), mkCmp("<=", r, b)))
